@@ -4,7 +4,7 @@
 -/
 import HL.Lemmas.Update
 namespace HL.Lemmas.Init
-open HL.Index HL.Workspace HL.Lemmas.AList HL.Lemmas.Reach HL.Lemmas.Edges HL.Lemmas.Index
+open HL.Index HL.Workspace HL.Lemmas.AList HL.Lemmas.ReachIdx HL.Lemmas.Edges HL.Lemmas.Index
 open HL.Lemmas.WsInv HL.Lemmas.Refresh HL.Lemmas.Update HL.Lemmas.Load HL.Spec.Rebuild
 
 /-! ### root selection -/
